@@ -111,7 +111,10 @@ def edit_family(run, search_prop, n_quick=900, n_thorough=6000, corr=True, pre=N
 
 def C08(run): edit_family(run, 'C08')
 def C04(run): edit_family(run, 'C04', pre=gen_layers)
-def C05(run): edit_family(run, 'C05')
+def C05(run):
+    edit_family(run, 'C05')
+    # edits whose path holds a reference (let layers, shadowing, alias chains): the binding that is rewritten must be the defining one, nothing else changes
+    oracle(run, 'reference-edit-search', 'resolve_search.py', ['C05', run.seed, 3000 if run.tier == 'thorough' else 500], timeout=3000)
 def C19(run): edit_family(run, 'C19', n_quick=1500, n_thorough=10000)
 
 def C09(run):
